@@ -82,6 +82,24 @@ CHECKS = {
         note="Trusted: TLC, lib/gen_scope.py, the in-process driver. IMPL anchors are covered by C17.",
         technique="TLA+ model (Scope.tla + Codes.tla) checked by TLC; replay of every (kind, slot, list) scenario into the real analyzers",
         design="5/C07"),
+    "C08": dict(
+        text="TLC checks on Config.tla that the configuration reached through the process steps (environment captured into flag defaults, "
+             "command line override, parse-and-cache in the first pass) excludes exactly the codes matched by S under ALL > category > code, for "
+             "every subset of a reduced token universe and every singleton / pair of the full one; the unmodified binary is run on a probe module "
+             "with all 16 codes in two packages for those S (spelled with random case, blanks, empty items; by flag or by environment) and the "
+             "visible codes must equal the model's; a sample also under go vet -vettool.",
+        note="Trusted: TLC, lib/gen_cfg.py, the JSON output parser. Quick replays a seeded sample of the emitted sets, thorough all of them.",
+        technique="TLA+ model (Config.tla + Codes.tla) checked by TLC; TLC-enumerated configurations replayed into the real binary on a probe module",
+        design="5/C08"),
+    "C18": dict(
+        text="TLC checks on Config.tla that ProcInit / ParseFlags / RunConfigOnce / RunConfigAgain yield flag > environment > default for the "
+             "full grid of the three options and that the cached configuration never changes after the first pass; the grids of each option "
+             "(exhaustively) and a seeded sample of the full product are concretised with seeded spellings and the unmodified binary is run on a "
+             "probe module whose visible plants (test file, *testdata* path, zzgen path, one per code) must equal the model's; vet-driver sample "
+             "and fuzzed environment strings that must not make the tool fail.",
+        note="Trusted: TLC, lib/gen_cfg.py, the JSON output parser; GOGREEMENT_ENV_ONLY unset; boolean flags limited to spellings package flag accepts.",
+        technique="TLA+ model (Config.tla) checked by TLC; TLC-enumerated (env, argv) grids replayed into the real binary on a probe module",
+        design="5/C18"),
 }
 
 NOT_YET = "check not built yet in this session; the property is in scope of the TLA+ specification (see DESIGN.md section 5) and will be claimed when its replay binding is in place"
